@@ -106,11 +106,33 @@ func ruleHeapNotify(c *Ctx, r *R) {
 			k++
 			key := "heap.Heap." + n + "|store#" + itoa(k) + "@" + idxPath
 			found := false
+			extra := ""
 			for _, call := range callsAfter(fn, st, "notifyIndexChanged") {
 				ap := path(call.Call.Args[1])
 				if ap == idxPath || strings.Trim(ap, "()") == strings.Trim(idxPath, "()") {
 					found = true
+					// the notification may be conditional only on the slot still existing: X < len(h.a) / len(h.a) > X
+					for _, g := range guardsOf(call.Block()) {
+						if g.blk.Dominates(st.Block()) && g.blk != st.Block() {
+							continue // a guard the store is under as well
+						}
+						cf, ok := g.asCmp()
+						if !ok {
+							extra = "an unrecognised condition"
+							continue
+						}
+						xs, ys := unparen(path(cf.x)), unparen(path(cf.y))
+						idx := unparen(idxPath)
+						okG := (xs == "len(h.a)" && ys == idx && cf.op == token.GTR) || (xs == idx && ys == "len(h.a)" && cf.op == token.LSS)
+						if !okG {
+							extra = xs + " " + cf.op.String() + " " + ys
+						}
+					}
 				}
+			}
+			if found && extra != "" {
+				r.violated(key, st.Pos(), "the notification for index "+idxPath+" is skipped under "+extra+", which is stronger than 'the slot still exists' (len(h.a) > "+idxPath+"): when exactly one element remains it has moved to index "+idxPath+" but the key map keeps its old index")
+				return
 			}
 			r.ok(found, key, st.Pos(), "an element was placed at index "+idxPath+" but no notifyIndexChanged("+idxPath+") follows: PriorityQueue's key→index map goes stale for that key")
 		})
@@ -681,4 +703,11 @@ func fieldOfCallResult(v ssa.Value, call *ssa.Call, field string) bool {
 		return len(sts) == 1 && sts[0].Val == ssa.Value(call)
 	}
 	return false
+}
+
+func unparen(s string) string {
+	for strings.HasPrefix(s, "(") && strings.HasSuffix(s, ")") {
+		s = s[1 : len(s)-1]
+	}
+	return s
 }
